@@ -208,6 +208,7 @@ class Repo:
                     except SyntaxError as e:
                         raise AnalysisError("cannot parse %s: %s" % (rel, e))
                     self.modules[rel] = m
+                    m.repo = self
                     self.by_modname[m.modname] = m
         self._resolve_bases()
         # summaries by inlining: private helpers are folded into their callers before any rule looks at a function
